@@ -65,7 +65,8 @@ def _validate(ctx, cfg, lines, begin_marker='"ev":"begin"', max_rounds=8, timeou
         b = idx + 1
         while b < len(lines) and begin_marker not in lines[b]:
             b += 1
-        rejected.append({"why": why, "clause": clause, "begin": json.loads(lines[a]), "event": json.loads(lines[idx])})
+        rejected.append({"why": why, "clause": clause, "begin": json.loads(lines[a]), "event": json.loads(lines[idx]),
+                         "prefix": [json.loads(x) for x in lines[a + 1:idx]]})
         lines = lines[:a] + lines[b:]
     else:
         if max_rounds > 1:
@@ -121,9 +122,17 @@ def _report(ctx, seg, cfgname):
     ev = seg["event"]
     again = _reexecute(ctx, [ev])
     confirmed = bool(again) and again[0].get("accepted") == ev.get("accepted") and again[0].get("panic") == ev.get("panic")
+    how = "alone in a fresh process"
+    if not confirmed and seg.get("prefix"):
+        # the outcome may depend on what the process verified before (state kept across verifications): run the recorded history
+        # of the segment up to the event again, in one fresh process and in the recorded order
+        hist = [e for e in seg["prefix"] if e.get("ev") == "case"][-400:] + [ev]
+        again = _reexecute(ctx, hist)
+        confirmed = len(again) == len(hist) and again[-1].get("accepted") == ev.get("accepted") and again[-1].get("panic") == ev.get("panic")
+        how = "after the %d verifications recorded before it in the same process" % (len(hist) - 1)
     keys = {"clause": seg["clause"], "bl": (ev.get("pol") or {}).get("bl"), "mutated": bool(ev.get("mutated"))}
     what = "real QuoteBundle.Verify outcome forbidden by the Rule (%s, re-executed: %s): %s" % (
-        seg["why"], "reproduced" if confirmed else "NOT reproduced", _describe(ev))
+        seg["why"], ("reproduced " + how) if confirmed else "NOT reproduced", _describe(ev))
     if not confirmed:
         ctx.notes.append("a rejected event did not reproduce on re-execution: " + what[:300])
         return
@@ -183,7 +192,7 @@ def run(ctx):
     ctx.coverage["model_counterexample_blacklist_letter_case"] = bres.violated == "Sound"
 
     # 2. scenario table, generation, replay -----------------------------------------------------------
-    vps = "30,500" if q else "0,1,30,90,500,65535"
+    vps = "30,500,2000" if q else "0,1,30,90,500,2000,65535"
     d = vlib.copy_specs(ctx, *SPEC)
     vlib.run_vh(ctx, ["attest-vectors", "-vp", vps, "-out", os.path.join(d, "scen.json")])
     scen = json.load(open(os.path.join(d, "scen.json")))
